@@ -86,6 +86,14 @@ def run_whole(ctx, pid, n, mons=None, force=None, nontrivial=None, machine_repla
         if len(samples) < 4 and r["sig"] is not None:
             samples.append({"seed": r["seed"], "engines": eng, "gsc": r["spec"]["gsc"], "sprout": r["spec"]["sprout"].get("generator", r["spec"]["sprout"]["kind"]),
                             "stats": r["stats"], "maximize": r["spec"]["maximize"], "hibernation": r["spec"]["hibernation"]})
+    # the Coq replays are capped (source size / memory); the monitors above ran on every trace
+    MAXM, MAXH = 4000, 700
+    if len(terms) > MAXM:
+        dist["machine-replay-capped"] = len(terms) - MAXM
+        terms, owners = terms[:MAXM], owners[:MAXM]
+    if len(hterms) > MAXH:
+        dist["history-replay-capped"] = len(hterms) - MAXH
+        hterms, howners = hterms[:MAXH], howners[:MAXH]
     replayed = 0
     if machine_replay and terms:
         out, err = run_cases(pid + "-machine", machine.HEADER, terms, shard=max(4, (len(terms) + 15) // 16))
